@@ -139,10 +139,11 @@ def run(ck):
             for _m in range(r.range(1, 4)):
                 depth = r.choice([0, 1, 2, 3, 3]); addr = [r.range(1, 255) for _ in range(depth)]
                 ty = r.choice(MSGQ + ERRQ)
-                data = [r.choice(SPECIAL) if r.chance(1, 6) else r.below(256) for _ in range(r.choice([9, 10, 12, 16]))]
+                data = [r.choice(SPECIAL) if r.chance(1, 6) else r.below(256) for _ in range(r.choice([9, 10, 12, 16, 16, 40, 59, 60, 61, 100, 200, 240]))]   # up to the longest messages a packet can carry
                 if ty == 0x86: data[0] = r.choice([0x00, 0x01, 0x02, 0x03, 0x10, 0x11, 0x12, 0x20, 0x21, 0x22, 0x30]); data[1] = r.below(7)
                 msgs.append(flowgen.upmsg(addr, r.below(256), ty, data))
-            pk.append(msgs)
+            while sum(len(m) for m in msgs) > 250: msgs.pop()
+            if msgs: pk.append(msgs)
         ncases.append(pk)
     L = ["start 0 - 0", "logw 0"]
     for i, pk in enumerate(ncases):
